@@ -85,6 +85,7 @@ def worker_main(prop_id, tier, wid, nworkers, verif_seed, budget, max_cases,
         'probes': collections.Counter(),
         'faults': collections.Counter(),
         'aborted': collections.Counter(),
+        'aborted_cases': [],
         'violations': [],
         'viol_counts': collections.Counter(),
         'samples': [],
@@ -149,6 +150,8 @@ def worker_main(prop_id, tier, wid, nworkers, verif_seed, budget, max_cases,
                 rep['extra'][f'{kx}={vx}'] += 1
         if v.aborted:
             rep['aborted'][v.aborted] += 1
+            if len(rep['aborted_cases']) < 40:
+                rep['aborted_cases'].append([index, v.aborted])
         cu = getattr(v, 'custom', None)
         if cu is not None:
             rep['custom'].append(cu)
@@ -310,6 +313,7 @@ def _finish(prop, prop_id, tier, verif_seed, reports, errors, t0, nworkers,
     probes = collections.Counter()
     faults = collections.Counter()
     aborted = collections.Counter()
+    aborted_cases = []
     viol_counts = collections.Counter()
     extra = collections.Counter()
     table = collections.Counter()
@@ -325,6 +329,7 @@ def _finish(prop, prop_id, tier, verif_seed, reports, errors, t0, nworkers,
         probes.update(r['probes'])
         faults.update(r['faults'])
         aborted.update(r['aborted'])
+        aborted_cases.extend(r.get('aborted_cases', []))
         viol_counts.update(r['viol_counts'])
         extra.update(r['extra'])
         table.update(r.get('table', {}))
@@ -428,6 +433,7 @@ def _finish(prop, prop_id, tier, verif_seed, reports, errors, t0, nworkers,
             'fault_counts_fired': dict(sorted(faults.items())),
             'probe_counts': dict(sorted(probes.items())),
             'aborted_runs': dict(sorted(aborted.items())),
+            'aborted_case_indices': sorted(aborted_cases)[:60],
             'extra': dict(sorted(extra.items())),
             'coverage_table_classes': len(table),
             'coverage_table': dict(sorted(table.items())[:400]),
